@@ -122,3 +122,14 @@ info('C09',
      ['permute_sites swap-sequence invariant and the form bookkeeping as deductive obligations: see contracts/c_mps.py (partly built)',
       'compression numerics'],
      [])
+info('C10',
+     'P: fermionic sign algebra of order_combine_term and the term containers (see contracts/c_terms.py, shared with C12). '
+     'B (bounded, not proof): random coupling models (onsite, two-site of any range/sign, 3-site, exponentially decaying; complex '
+     'strengths; plus_hc; explicit_plus_hc) on finite open/periodic chains for every site family: dense MPO, term list -> MPO, '
+     'bond operators, MPO from bonds, ExactDiag, get_numpy_Hamiltonian (both sources), get_scipy_sparse_Hamiltonian, sorted MPO '
+     'legs and grouped sites all equal the dense operator built from the specification with explicit Jordan-Wigner strings; '
+     'Hermiticity.',
+     ['MPOGraph path semantics (protocol-level invariant): bounded only', 'ladders/2D lattices and infinite boundaries: '
+      'covered only through C19 (pairs) and C11/C13 models, not in this harness', 'predefined models over their parameter space: '
+      'not enumerated'],
+     [])
